@@ -143,6 +143,42 @@ func main() {
 		}
 		return
 	}
+	if cmd == "multi" && len(os.Args) >= 3 {
+		// several properties on one load (used by tools/seed_matrix.py): prints "RESULT <id> <exit code>" per property
+		w, err := world.Build(p)
+		if err != nil {
+			fmt.Println("RESULT * 2 world:", err)
+			os.Exit(2)
+		}
+		outDir := verifDir
+		if o := os.Getenv("GBCHECK_OUT"); o != "" {
+			outDir = o
+		}
+		worst := 0
+		for _, id := range strings.Split(os.Args[2], ",") {
+			fn, ok := checks.Registry[id]
+			if !ok {
+				continue
+			}
+			ctx := &checks.Ctx{P: p, W: w, Tier: "quick"}
+			var res *report.Result
+			func() {
+				defer func() {
+					if rec := recover(); rec != nil {
+						res = report.New(id, "other", "static analysis")
+						res.Fail("undecided", "internal", "checker-panic", "", fmt.Sprintf("the checker panicked: %v", rec))
+					}
+				}()
+				res = fn(ctx)
+			}()
+			code := report.Finish(res, report.Meta{Tier: "quick", VerifDir: verifDir, OutDir: outDir, Cmd: "./check " + id + " quick"})
+			fmt.Printf("RESULT %s %d\n", id, code)
+			if code > worst {
+				worst = code
+			}
+		}
+		os.Exit(worst)
+	}
 	fn, ok := checks.Registry[cmd]
 	if !ok {
 		fmt.Fprintln(os.Stderr, "unknown property", cmd, "- known:", checks.IDs())
